@@ -47,7 +47,7 @@ def build_pool(tier, seed):
     pool = []
     for b in bases:
         pool.append(b)
-    target = 64 if tier == "quick" else 220
+    target = 110 if tier == "quick" else 220
     # truncations and injections
     cands = []
     for b in bases:
@@ -76,7 +76,7 @@ def plan(tier, seed):
     n = 16
     for i in range(n):
         specs.append({"name": f"pairs-{i}", "mode": "pairs", "shard": i, "nshards": n})
-    nh = 40 if tier == "quick" else 700
+    nh = 150 if tier == "quick" else 700
     for i in range(8):
         specs.append({"name": f"hist-{i}", "mode": "hist", "n": nh, "rseed": seed * 100 + i})
     specs.append({"name": "lexer", "mode": "lexer", "rseed": seed, "n": 300 if tier == "quick" else 6000})
